@@ -18,9 +18,9 @@ Has(e, f) == f \in DOMAIN e
 
 (* ---- clauses: each returns TRUE iff the event satisfies it ------------ *)
 
-ParseOK(e) == Weight(e.sr, e.G, e.s) = e.res
+ParseOK(e) == WEq(e.sr, Weight(e.sr, e.G, e.s), e.res)
 
-PrefixOK(e) == PrefixWeight(e.sr, e.G, e.s) = e.res
+PrefixOK(e) == WEq(e.sr, PrefixWeight(e.sr, e.G, e.s), e.res)
 
 (* chart: sequence of <<X, value>> covering every nonterminal of G *)
 TreesumOK(e) ==
@@ -29,7 +29,7 @@ TreesumOK(e) ==
   IN /\ NTs(e.G) \subseteq given
      /\ \A i \in DOMAIN e.chart :
           LET X == e.chart[i][1] IN
-          IF X \in NTs(e.G) THEN ts[X] = e.chart[i][2] ELSE e.chart[i][2] = Zero(e.sr)
+          IF X \in NTs(e.G) THEN WEq(e.sr, ts[X], e.chart[i][2]) ELSE e.chart[i][2] = Zero(e.sr)
 
 (* rational weights with recursion: the recorded chart must solve the      *)
 (* system exactly and dominate every Kleene iterate (least solution of a   *)
@@ -105,23 +105,24 @@ PNextOK(e) ==
                 ELSE PrefixWeight(e.sr, e.G, Append(e.ctx, t))
   IN \A i \in DOMAIN e.dist :
         LET t == e.dist[i][1]  v == e.dist[i][2] IN
-        IF pw = Zero(e.sr) \/ e.eos \in SetOf(e.ctx) THEN v = Zero(e.sr)
-        ELSE Mul(e.sr, v, pw) = val(t)
+        IF pw = Zero(e.sr) \/ e.eos \in SetOf(e.ctx) THEN WEq(e.sr, Zero(e.sr), v)
+        ELSE WEq(e.sr, RDiv(val(t), pw), v)
 PNextSumOK(e) ==
   LET pw == PrefixWeight(e.sr, e.G, e.ctx)
-  IN pw # Zero(e.sr) /\ e.eos \notin SetOf(e.ctx)
+  IN (pw # Zero(e.sr) /\ e.eos \notin SetOf(e.ctx) /\ \A i \in DOMAIN e.dist : ~IsFx(e.dist[i][2]))
        => SumSeq(e.sr, [i \in DOMAIN e.dist |-> e.dist[i][2]]) = One(e.sr)
 NtwOK(e) ==       \* unnormalised: weight of ctx.t under the prefix semantics
   \A i \in DOMAIN e.dist :
       LET t == e.dist[i][1]  v == e.dist[i][2] IN
-      v = (IF e.eos \in SetOf(e.ctx) THEN Zero(e.sr)
-           ELSE IF t = e.eos THEN Weight(e.sr, e.G, e.ctx)
-           ELSE PrefixWeight(e.sr, e.G, Append(e.ctx, t)))
+      WEq(e.sr, (IF e.eos \in SetOf(e.ctx) THEN Zero(e.sr)
+                 ELSE IF t = e.eos THEN Weight(e.sr, e.G, e.ctx)
+                 ELSE PrefixWeight(e.sr, e.G, Append(e.ctx, t))), v)
 
 (* chain rule: P(x . eos) * Z = weight(x) *)
 LmCallOK(e) ==
   LET Z == TreeSum(e.sr, e.G)[e.G.S]
-  IN Mul(e.sr, e.res, Z) = Weight(e.sr, e.G, e.s)
+  IN IF Z = Zero(e.sr) THEN WEq(e.sr, Zero(e.sr), e.res)
+     ELSE WEq(e.sr, RDiv(Weight(e.sr, e.G, e.s), Z), e.res)
 
 (* expected_length: total weight-weighted string length = second component of the total weight of  *)
 (* the grammar lifted to the expectation semiring (rule weight <w, w * number of terminals in body>) *)
@@ -131,7 +132,7 @@ LiftExpect(G) ==
       LET b == G.rules[r].b
           nt == Cardinality({j \in DOMAIN b : b[j] \in TermSet(G)})
       IN [w |-> <<G.rules[r].w, RMul(G.rules[r].w, <<nt, 1>>)>>, h |-> G.rules[r].h, b |-> b]]]
-ExpLenOK(e) == TreeSum("Expect", LiftExpect(e.G))[e.G.S][2] = e.res
+ExpLenOK(e) == REq(TreeSum("Expect", LiftExpect(e.G))[e.G.S][2], e.res)
 
 InDomain(e) ==
   CASE e.op \in {"parse"} -> InsideExact(e.sr, e.G)
